@@ -819,8 +819,8 @@ func (cs *ContractSet) ParseContractText(file string, pkgPath string, lines []st
 				if err != nil {
 					return err
 				}
-				if c.At == "" {
-					return errf("assert needs at \"source text\"")
+				if c.At == "" && c.Before == "" {
+					return errf("assert needs at \"source text\" or before \"source text\"")
 				}
 				cur.Asserts = append(cur.Asserts, c)
 			case "marks":
